@@ -648,8 +648,15 @@ func (n *nodeSim) noteSend(rec *sendRec, t *simk.Task) {
 	rec.kind = "other"
 	if rec.parseErr == nil {
 		rec.idStr = rec.bundle.ID().String()
+		workload := false
+		if pb, err := rec.bundle.PayloadBlock(); err == nil {
+			data := pb.Value.(*bpv7.PayloadBlock).Data()
+			if i := bytes.IndexByte(data, '|'); i > 0 && i < 12 && n.byTag[string(data[:i])] != nil {
+				workload = true // also workload bundles that carry the administrative-record flag
+			}
+		}
 		switch {
-		case rec.bundle.IsAdministrativeRecord():
+		case rec.bundle.IsAdministrativeRecord() && !workload:
 			rec.kind = "admin"
 		case rec.bundle.HasExtensionBlock(bpv7.ExtBlockTypeProphetBlock), rec.bundle.HasExtensionBlock(bpv7.ExtBlockTypeDTLSRBlock):
 			rec.kind = "meta"
